@@ -1095,3 +1095,63 @@ pub mod c01units {
         m
     }
 }
+
+// C03 R5 controls: modifier words consumed with and without a look-ahead
+pub mod modlook {
+    #[derive(Clone, PartialEq)]
+    pub enum TokenKind { Static, Readonly, Public, Star, LParen, Identifier(String), Eof }
+    #[derive(Clone)]
+    pub struct Token { pub kind: TokenKind }
+    pub struct Lexer { pub toks: Vec<Token>, pub pos: usize }
+    impl Lexer {
+        pub fn checkpoint(&self) -> usize { self.pos }
+        pub fn restore(&mut self, p: usize) { self.pos = p; }
+        pub fn next_token(&mut self) -> Token { let t = self.toks.get(self.pos).cloned().unwrap_or(Token { kind: TokenKind::Eof }); self.pos += 1; t }
+    }
+    pub struct Parser { pub lexer: Lexer, pub current: Token }
+    impl Parser {
+        fn check(&self, k: &TokenKind) -> bool { std::mem::discriminant(&self.current.kind) == std::mem::discriminant(k) }
+        fn advance(&mut self) { self.current = self.lexer.next_token(); }
+        fn match_token(&mut self, k: &TokenKind) -> bool { if self.check(k) { self.advance(); true } else { false } }
+        fn peek_is_name(&mut self) -> bool {
+            let c = self.lexer.checkpoint();
+            let n = self.lexer.next_token();
+            self.lexer.restore(c);
+            !matches!(n.kind, TokenKind::LParen | TokenKind::Eof)
+        }
+        fn match_modifier(&mut self, k: &TokenKind) -> bool { if self.check(k) && self.peek_is_name() { self.advance(); true } else { false } }
+        fn parse_property_name(&mut self) -> Option<String> {
+            let n = match &self.current.kind { TokenKind::Identifier(s) => Some(s.clone()), TokenKind::Static => Some("static".to_string()), _ => None };
+            self.advance();
+            n
+        }
+        /// BAD: `static` consumed whenever it is the current token
+        pub fn bad_member(&mut self) -> (bool, Option<String>) {
+            let st = self.match_token(&TokenKind::Static);
+            let _gen = self.match_token(&TokenKind::Star);
+            (st, self.parse_property_name())
+        }
+        /// BAD: the same through a match on the current kind
+        pub fn bad_access(&mut self) -> bool {
+            match &self.current.kind { TokenKind::Public | TokenKind::Readonly => { self.advance(); true } _ => false }
+        }
+        /// GOOD: wrapper with a look-ahead
+        pub fn good_member(&mut self) -> (bool, Option<String>) {
+            let st = self.match_modifier(&TokenKind::Static);
+            (st, self.parse_property_name())
+        }
+        /// GOOD: inline look-ahead
+        pub fn good_access(&mut self) -> bool {
+            match &self.current.kind { TokenKind::Public | TokenKind::Readonly => {} _ => return false }
+            if !self.peek_is_name() { return false; }
+            self.advance();
+            true
+        }
+        /// GOOD: not followed by a name (`static` before a required token)
+        pub fn not_a_name_position(&mut self) -> bool {
+            let st = self.match_token(&TokenKind::Static);
+            st && self.require_paren()
+        }
+        fn require_paren(&mut self) -> bool { self.match_token(&TokenKind::LParen) }
+    }
+}
